@@ -4,7 +4,7 @@ CubicRoots::improve unrolled to three Newton steps are regenerated from /repo on
 for all real coefficients, that the returned values are exactly the roots (Cardano, Viete, exact degenerate forms) and that
 the refinement never increases the residual.  The real code (double) is run on a corpus and a seeded sweep and judged by an
 independent statement of the property evaluated in exact rational arithmetic (failing-input search, always on)."""
-import os, re, threading
+import math, os, random, re, struct, threading
 from fractions import Fraction as Fr
 from vlib import guarded_main
 
@@ -23,6 +23,76 @@ CORPUS = [
     (1, -9, 24, -20), (1, -12, 45, -50), (1, 6, 9, 4), (1, 9, 24, 16), (2, -12, 18, -8), (2, 6, 0, -8),
     (1e100, 0, -7e100, 6e100), (1e-100, 0, 1e-100, 1e-100), (1e100, 0, 0, 8e100), (1e-100, -6e-100, 11e-100, -6e-100),
 ]
+
+
+# root scales at which p^3, q^2 and the discriminant of the depressed form leave the range of binary64 / fall below the absolute
+# threshold prec = 100*DBL_MIN of the code although p and q themselves are far from it (scale finding, see NOTES.md):
+# roots (1, 2, -3)*s, (1, 2, 4)*s shifted, one real root + complex pair, for s = 1e-100 .. 1e+100
+def scale_corpus():
+    cs = []
+    for s in (1e-100, 1e-60, 1e-52, 1e52, 1e60, 1e100):
+        cs.append((1.0, 0.0, -7 * s * s, 6 * s * s * s))                       # (x - s)(x - 2s)(x + 3s)
+        cs.append((1.0, -7 * s, 14 * s * s, -8 * s * s * s))                   # (x - s)(x - 2s)(x - 4s)
+        cs.append((1.0, 0.0, s * s, s * s * s))                                # one real root -0.68 s
+    # the same cubics at scales where everything is in range (must pass)
+    for s in (1e-40, 1e-20, 1e20, 1e40):
+        cs.append((1.0, 0.0, -7 * s * s, 6 * s * s * s))
+        cs.append((1.0, -7 * s, 14 * s * s, -8 * s * s * s))
+        cs.append((1.0, 0.0, s * s, s * s * s))
+    return cs
+
+
+def fbits(x):
+    return "nan" if x != x else struct.pack(">d", x).hex()
+
+
+def hx(x):
+    if x != x:
+        return "nan"
+    if math.isinf(x):
+        return "inf" if x > 0 else "-inf"
+    return x.hex()
+
+
+def cq(x):  # Coq float literal
+    if x != x:
+        return "nan"
+    if math.isinf(x):
+        return "infinity" if x > 0 else "neg_infinity"
+    if x == 0:
+        return "(-0)" if math.copysign(1, x) < 0 else "0"
+    h = x.hex()
+    return "(%s)" % h if h.startswith("-") else h
+
+
+def improve_cases(rng, n):
+    """(vp, a3, a2, a1, a0) for the bit-exact comparison of the model of improve with the real improve<double>"""
+    cs = [(1.9, 1.0, -6.0, 11.0, -6.0), (3.0, 1.0, 0.0, 0.0, 8.0), (0.0, 1.0, 0.0, 0.0, 0.0), (1.0, 1.0, -3.0, 3.0, -1.0),
+          (1.0000001, 1.0, -3.0, 3.0, -1.0), (0.5, 1.0, 0.0, -0.75, 0.0), (1e-310, 1.0, 0.0, 1.0, 0.0), (1e300, 1.0, 0.0, 0.0, 1.0),
+          (float("nan"), 1.0, 2.0, 3.0, 4.0), (1.0, float("nan"), 2.0, 3.0, 4.0), (float("inf"), 1.0, 2.0, 3.0, 4.0),
+          (2.0, 0.0, 0.0, 0.0, 1.0), (-2.57e-52, 1.0, 0.0, -7e-104, 6e-156), (1.29e-52, 1.0, 0.0, -7e-104, 6e-156),
+          (1.0, 1.0, 0.0, 1e-320, 0.0), (-0.0, 1.0, 0.0, 1.0, 0.0), (0.1, 1.0, 0.0, 1.0, 1e-3)]
+    for i in range(n):
+        a3 = rng.uniform(0.5, 2) * rng.choice((-1, 1))
+        k = i % 4
+        if k == 0:     # close to a root of a cubic with three real roots
+            r = [rng.uniform(-3, 3) for _ in range(3)]
+            t = (a3, -a3 * sum(r), a3 * (r[0] * r[1] + r[0] * r[2] + r[1] * r[2]), -a3 * r[0] * r[1] * r[2])
+            vp = r[0] * (1 + 10.0 ** -rng.uniform(1, 15) * rng.choice((-1, 1)))
+        elif k == 1:   # arbitrary start: the loop runs long, may hit the iteration bound or a flat derivative
+            t = (a3, rng.uniform(-5, 5), rng.uniform(-5, 5), rng.uniform(-5, 5))
+            vp = rng.uniform(-10, 10)
+        elif k == 2:   # near a double root (slow convergence: many iterations)
+            r, m = rng.uniform(-3, 3), rng.uniform(-3, 3)
+            t = (a3, -a3 * (2 * m + r), a3 * (m * m + 2 * m * r), -a3 * m * m * r)
+            vp = m + 10.0 ** -rng.uniform(0, 9) * rng.choice((-1, 1))
+        else:          # scaled
+            sc = 10.0 ** rng.uniform(-60, 60)
+            r = [rng.uniform(-3, 3) * sc for _ in range(3)]
+            t = (a3, -a3 * sum(r), a3 * (r[0] * r[1] + r[0] * r[2] + r[1] * r[2]), -a3 * r[0] * r[1] * r[2])
+            vp = r[1] * (1 + 10.0 ** -rng.uniform(1, 12))
+        cs.append((vp,) + t)
+    return cs
 
 
 def fmt(t):
@@ -70,6 +140,61 @@ def judge(a, nb, xs):
     return None
 
 
+def improve_correspondence(c, exe):
+    """bit-exact tie of the hand-written model of CubicRoots::improve (coq/C10Improve.v run on Coq primitive floats by vm_compute)
+    with the real improve<double> of /repo"""
+    cases = improve_cases(random.Random("improve-%s" % c.seed), c.pick(1200, 12000))   # own generator: runs in a thread next to the sweep
+    rc, out, err = c.run([exe, "improve"], input="\n".join(" ".join(hx(v) for v in t) for t in cases) + "\n")
+    real = [l.split()[1] for l in out.splitlines() if l.startswith("I ")]
+    if rc != 0 or len(real) != len(cases):
+        c.report("improve-run", "driver (improve mode) failed or printed %d results for %d cases: %s" % (len(real), len(cases), err[-300:]), {}, False)
+        return
+    real = [float("nan") if r == "nan" else float.fromhex(r) for r in real]
+    model = []
+    for k0 in range(0, len(cases), 3000):
+        sub = cases[k0:k0 + 3000]
+        txt = ("From Coq Require Import Floats List ZArith.\nFrom C10 Require Import C10Improve C10ImproveFloat.\nImport ListNotations.\n"
+               "Open Scope float_scope.\n" + "".join(
+                   "Eval vm_compute in map run1 [\n%s].\n" % ";\n".join("(%s)" % ", ".join(cq(v) for v in t) for t in sub[j:j + 500])
+                   for j in range(0, len(sub), 500)))
+        rc, out, err = c.coq_eval(["C10Improve.v", "C10ImproveFloat.v"], txt, timeout=900)
+        if rc != 0:
+            c.report("improve-model-run", "evaluation of the model of improve failed: " + err[-500:], {"stderr": err[-3000:]}, False)
+            return
+        for m in re.finditer(r"^\s+= \[(.*?)\]\s*^\s+: ", out, flags=re.S | re.M):
+            for tok in m.group(1).split(";"):
+                tok = tok.strip()
+                model.append({"nan": float("nan"), "infinity": float("inf"), "neg_infinity": float("-inf")}.get(tok) if tok in ("nan", "infinity", "neg_infinity") else float(tok))
+    if len(model) != len(cases):
+        c.report("improve-model-run", "model of improve printed %d results for %d cases" % (len(model), len(cases)), {}, False)
+        return
+    nmoved = nworse = 0
+    bad = []
+    for t, r, m in zip(cases, real, model):
+        moved = fbits(r) != fbits(t[0])
+        nmoved += moved
+        c.count(1, ("I", t), moved)
+        if fbits(r) != fbits(m):
+            bad.append((t, r, m))
+        # independent statement on the real code: the residual (same Horner evaluation as the code's own guard) never increases
+        pv = lambda x: ((t[1] * x + t[2]) * x + t[3]) * x + t[4]
+        if moved and not (abs(pv(r)) < abs(pv(t[0]))):
+            nworse += 1
+            if nworse > 6:
+                continue   # enough concrete inputs; the total is in the notes
+            c.report("improve:" + ",".join(hx(v) for v in t), "improve<double> moved vp=%r to %r but the residual did not decrease (coefficients a3..a0 = %r)" % (t[0], r, t[1:]),
+                     {"vp,a3,a2,a1,a0": [hx(v) for v in t], "result": hx(r), "how": "props/C10/trace.cxx improve"}, True)
+    c.coverage["improve_model_cases_bit_exact"] = len(cases) - len(bad)
+    c.notes.append("improve: model (primitive floats, vm_compute) vs real improve<double>: %d cases compared bit for bit, %d mismatches; vp changed in %d cases, %d of them without a strictly smaller residual" % (
+        len(cases), len(bad), nmoved, nworse))
+    if bad:
+        t, r, m = bad[0]
+        c.report("improve-corr", "model of improve (coq/C10Improve.v) and the real improve<double> disagree on %d/%d cases, first: vp,a3,a2,a1,a0 = %s real=%s model=%s" % (
+            len(bad), len(cases), [hx(v) for v in t], hx(r), hx(m)), {"vp,a3,a2,a1,a0": [hx(v) for v in t], "real": hx(r), "model": hx(m)}, False)
+    c.trusted("hand-written Gallina model coq/C10Improve.v of CubicRoots::improve, tied to /repo by bit-exact differential execution on Coq primitive floats only",
+              "g++ -O1 -ffp-contract=off x86-64 SSE2 double arithmetic = IEEE-754 binary64 = Coq primitive floats")
+
+
 def lemma_at(path, line):
     name = ""
     try:
@@ -85,7 +210,24 @@ def lemma_at(path, line):
 
 
 def main(c):
-    exe = c.cxx("trace", ["trace.cxx"])
+    exe = c.cxx("trace", ["trace.cxx"], flags=["-ffp-contract=off"])
+    # the bit-exact tie of the model of improve runs next to everything else (one coqc)
+    jdone = threading.Event()
+
+    def jrun():
+        try:
+            improve_correspondence(c, exe)
+        finally:
+            jdone.set()
+    jth = threading.Thread(target=jrun)
+    jth.start()
+    try:
+        main2(c, exe, jdone)
+    finally:
+        jth.join()
+
+
+def main2(c, exe, jdone):
     gen = os.path.join(c.work, "coq", "C10_gen.v")
     os.makedirs(os.path.dirname(gen), exist_ok=True)
     rc, out, err = c.run([exe, "gen", gen, str(c.seed)])
@@ -121,6 +263,9 @@ def main(c):
     ncorpus = len(cases)
     cases += [t for t in leafcases if t not in cases]   # inputs derived from the path conditions of every leaf
     c.notes.append("corpus: %d fixed inputs + %d inputs derived from the path conditions of %d leaves" % (ncorpus, len(cases) - ncorpus, len(leaves_reached)))
+    sc = [t for t in scale_corpus() if t not in cases]
+    cases += sc
+    c.notes.append("scale corpus: %d cubics with roots (1,2,-3)s, (1,2,4)s, one real root, s = 1e-100 .. 1e+100" % len(sc))
     n = c.pick(1500, 20000)
     for i in range(n):
         k = i % 5
@@ -202,24 +347,51 @@ def main(c):
     res0 = c.coq([gen, "C10Spec.v", "C10Base.v"], timeout=600)
     results = [res0]
     if res0.ok:
-        par = {}
+        # jobs: name -> (function, dependencies); at most 4 coqc at a time
+        par, done, sem = {}, {}, threading.Semaphore(4)
 
-        def comp(f):
-            par[f] = c.coq([f], timeout=900)
-        ths = [threading.Thread(target=comp, args=(f,)) for f in ("C10ProofsA.v", "C10ProofsB.v", "C10ProofsC.v", "C10ProofsD.v", p0)]
+        def comp(name, files):
+            par[name] = c.coq(files, timeout=900)
+
+        jobs = [("C", comp, ["C10ProofsC.v"], []), ("T", comp, ["C10ProofsT.v", "C10Scale.v"], []),
+                ("B", comp, ["C10ProofsB.v"], []), ("A", comp, ["C10ProofsA.v"], []), ("D", comp, ["C10ProofsD.v"], []),
+                ("Td", comp, ["C10ProofsTd.v"], ["T"]), ("Tq", comp, ["C10ProofsTq.v"], ["T"]), ("Tp", comp, ["C10ProofsTp.v"], ["T"]),
+                ("P0", comp, [p0], []), ("I", comp, ["C10ImproveProofs.v"], ["J"])]
+        for (name, _f, _fl, _d) in jobs:
+            done[name] = threading.Event()
+        done["J"] = jdone
+
+        def runjob(name, fn, files, deps):
+            try:
+                for d in deps:
+                    done[d].wait()
+                with sem:
+                    fn(name, files)
+            finally:
+                done[name].set()
+        ths = [threading.Thread(target=runjob, args=j) for j in jobs]
         for t in ths:
             t.start()
         for t in ths:
             t.join()
         results += list(par.values())
-        if all(r.ok for r in par.values()):
-            results.append(c.coq([props], timeout=600))
-    c.coverage["checker_cmd"] = "coqc -Q coq/lib VLib -R <scratch> C10 C10_gen.v C10Spec.v C10Base.v C10ProofsA.v C10ProofsB.v C10ProofsC.v C10ProofsD.v %s %s (Coq 8.16.1)" % (p0, props)
+        if all(r.ok for r in par.values()) and len(par) == len(jobs):
+            fin = {}
+
+            def compf(f):
+                fin[f] = c.coq([f], timeout=600)
+            ths = [threading.Thread(target=compf, args=(f,)) for f in (props, "Properties_C10_T.v")]
+            for t in ths:
+                t.start()
+            for t in ths:
+                t.join()
+            results += list(fin.values())
+    c.coverage["checker_cmd"] = "coqc -Q coq/lib VLib -R <scratch> C10 C10_gen.v C10Spec.v C10Base.v C10ProofsA.v C10ProofsB.v C10ProofsC.v C10ProofsD.v %s C10ProofsT.v C10Scale.v C10ProofsTp.v C10ProofsTq.v C10ProofsTd.v C10Improve.v C10ImproveFloat.v C10ImproveProofs.v %s Properties_C10_T.v (Coq 8.16.1)" % (p0, props)
     failed = [r for r in results if not r.ok]
     for r in failed:   # name the lemma that contains the failing line (vlib only knows the theorems of Properties files)
         r.failed = [(f, line, thm or lemma_at(os.path.join(c.work, "coq", f), line), msg) for (f, line, thm, msg) in r.failed]
     if failed:
-        nthm = 8
+        nthm = 16
         c.coverage["obligations"] = max(c.coverage["obligations"], nthm)
         if any(v[3] for v in c.violations) or c.known_hits:
             c.notes.append("proof obligations failed: %s; concrete failing inputs are reported" % [f[:3] for r in failed for f in r.failed])
